@@ -604,3 +604,32 @@ package template
 //@     invariant rewritten: seqeq(cat(seq(b), sub(s, written, j)), cat(entry(cat(seq(b), sub(s, written, i))), ltupto(s, i, j)))
 //@     hint unfold: seqeq(ltupto(s, i, j), cat(ltupto(s, i, j - 1), ltpiece(s, j - 1)))
 //@     decreases end - j
+
+//@ func New(name string) (r *Template)
+//@   serves C07 C08
+//@   option allocates
+//@   ensures fresh: !isnil(r) && fresh(r) && !isnil(r.nameSpace) && fresh(r.nameSpace) && !isnil(r.text) && fresh(r.text)
+//@   ensures unexecuted: !r.nameSpace.escaped && isnil(r.escapeErr) && isnil(r.Tree) && !held(r.nameSpace.mu)
+//@   ensures registered: !isnil(r.nameSpace.set) && r.nameSpace.set[name] == r && seqeq(ttname(r.text), name)
+
+//@ func (t *Template) new(name string) (r *Template)
+//@   serves C07 C08
+//@   requires !isnil(t) && !isnil(t.nameSpace) && !isnil(t.text) && !isnil(t.nameSpace.set)
+//@   requires setwf: haskeym(t.nameSpace.set, name) ==> !isnil(t.nameSpace.set[name]) && !isnil(t.nameSpace.set[name].text)
+//@   option allocates
+//@   option modifies Template.escapeErr Template.text Template.Tree Template.nameSpace map[seq]ref:Template#dom map[seq]ref:Template#val
+//@   ensures fresh: !isnil(r) && fresh(r) && r.nameSpace == old(t.nameSpace) && isnil(r.escapeErr) && isnil(r.Tree) && !isnil(r.text)
+//@   ensures registered: old(t.nameSpace).set[name] == r && old(t.nameSpace).set == old(t.nameSpace.set)
+//@   ensures replaced: old(haskeym(t.nameSpace.set, name)) ==> isnil(old(t.nameSpace.set[name]).escapeErr) && isnil(old(t.nameSpace.set[name]).Tree) && fresh(old(t.nameSpace.set[name]).nameSpace)
+//@   ensures others: onlyobjects(old(t.nameSpace.set[name]), old(t.nameSpace.set), r)
+
+//@ func (t *Template) New(name string) (r *Template)
+//@   serves C07 C08
+//@   requires !isnil(t) && !isnil(t.nameSpace) && !isnil(t.text) && !isnil(t.nameSpace.set) && !held(t.nameSpace.mu)
+//@   requires setwf: haskeym(t.nameSpace.set, name) ==> !isnil(t.nameSpace.set[name]) && !isnil(t.nameSpace.set[name].text)
+//@   option allocates
+//@   option locks true
+//@   option modifies Template.escapeErr Template.text Template.Tree Template.nameSpace map[seq]ref:Template#dom map[seq]ref:Template#val
+//@   ensures fresh: !isnil(r) && fresh(r) && r.nameSpace == old(t.nameSpace) && isnil(r.escapeErr) && isnil(r.Tree)
+//@   ensures registered: old(t.nameSpace).set[name] == r
+//@   ensures unlocked: !held(old(t.nameSpace).mu)
